@@ -38,8 +38,14 @@ def build_harness():
 
 
 def run_extractor():
+    """-> (ok, message, status) where status[fragment] = (properties, 'source' | 'executed …' | 'FAILED: …')"""
     rc, out = sh([sys.executable, os.path.join(VERIF, "tools", "extract.py")])
-    return rc == 0, out.strip()
+    status = {}
+    for l in out.splitlines():
+        m = re.match(r"FRAGMENT (\w+) \[([^\]]*)\] (.*)", l)
+        if m:
+            status[m.group(1)] = (m.group(2).split(","), m.group(3))
+    return rc == 0, out.strip(), status
 
 
 def strip_comments(src):
